@@ -195,6 +195,19 @@ pub fn run(cfg: &Cfg, rep: &mut Report) {
     rep.exhaustive_what.push(format!("all {} strings of length <= {} over the 23-symbol alphabet, in lower, upper and alternating case", n_exh, maxlen));
     bt.run(&m, rep);
 
+    // 1b. large blocks (a budget or a chunked scan shows only beyond some size): many allowed tags, a few disallowed ones
+    for rows in [40usize, 400, 1500, 6000] {
+        let mut lit = String::from("<table>\n");
+        for i in 0..rows {
+            lit.push_str("<tr><td>a</td><td>b &lt; c</td></tr>\n");
+            if i % 97 == 13 {
+                lit.push_str("<title>t</title> <XMP > </script\n>\n");
+            }
+        }
+        lit.push_str("</table>\n");
+        rep.count("large-block");
+        check_rendered(rep, lit.as_bytes(), 6);
+    }
     // 2. structured: '<' '/'? (proper prefix | exact | extended name) delimiter..., every cut point
     let mut bt = Batch::new();
     let delims: &[&[u8]] = &[b"", b" ", b"\n", b"\t", b"\x0b", b"\x0c", b"\x0c>", b"\r", b">", b"/>", b"/", b"/ >", b"x", b"-", b"<", b"\"", b"=", b"\xc2\xa0", b"/>x", b" x=\"y\">"];
